@@ -47,24 +47,29 @@ Proof.
 Qed.
 
 (* ------------------------------------------------------------------ well-bracketed code *)
-Definition cc_ctx_eqb (x : cc_hmu * bool * list cc_lk) (m : cc_hmu) (f : bool) (d : list cc_lk) : bool :=
-  cc_hmu_eqb (fst (fst x)) m && Bool.eqb (snd (fst x)) f && cc_lks_eqb (snd x) d.
+Definition is_nil {A} (l : list A) : bool := match l with [] => true | _ :: _ => false end.
+(* how many file mutexes an action runs under *)
+Definition ctx_len (a : cc_aid) : nat := if snd (fst (cc_ctx a)) then 1 else 0.
+Definition cc_ctx_eqb (x : cc_hmu * bool * list cc_lk) (m : cc_hmu) (h : list nat) (d : list cc_lk) : bool :=
+  cc_hmu_eqb (fst (fst x)) m && Nat.eqb (if snd (fst x) then 1 else 0) (length h) && cc_lks_eqb (snd x) d.
 
-(* [cc_ok m f d code]: started while holding [m] of mu, a file mutex iff [f], with the deferred
-   unlocks [d] pending, [code] never releases what is not held, takes mu only when nothing is
-   held, takes a file mutex only when no file mutex is held, reaches every action under that
-   action's declared locks and — if it ends — ends with deferred unlocks that release everything *)
-Fixpoint cc_ok (m : cc_hmu) (f : bool) (d : list cc_lk) (code : list cc_instr) : bool :=
+(* [cc_ok m h d code]: started while holding [m] of mu, the file mutexes [h] (innermost first), with
+   the deferred unlocks [d] pending, [code] never releases what is not held, takes mu only when
+   nothing is held, takes a file mutex only if it does not hold it already and - when it holds
+   another file mutex - only with mu WRITE-locked (the nested holds of Rename), reaches every action
+   under that action's declared locks and - if it ends - ends with deferred unlocks that release
+   everything *)
+Fixpoint cc_ok (m : cc_hmu) (h : list nat) (d : list cc_lk) (code : list cc_instr) : bool :=
   match code with
-  | [] => cc_okd m f d
-  | CcAcq LkW _ :: r => cc_hmu_eqb m HNone && negb f && cc_ok HW f d r
-  | CcAcq LkR _ :: r => cc_hmu_eqb m HNone && negb f && cc_ok HR f d r
-  | CcAcq LkF _ :: r => negb f && cc_ok m true d r
-  | CcRel LkW :: r => cc_hmu_eqb m HW && cc_ok HNone f d r
-  | CcRel LkR :: r => cc_hmu_eqb m HR && cc_ok HNone f d r
-  | CcRel LkF :: r => f && cc_ok m false d r
-  | CcDefer l :: r => cc_ok m f (l :: d) r
-  | CcAct a :: r => match r with [] => cc_ctx_eqb (cc_ctx a) m f d | _ => false end
+  | [] => cc_okd m (length h) d
+  | CcAcq LkW _ :: r => cc_hmu_eqb m HNone && is_nil h && cc_ok HW h d r
+  | CcAcq LkR _ :: r => cc_hmu_eqb m HNone && is_nil h && cc_ok HR h d r
+  | CcAcq LkF x :: r => negb (cc_heldb x h) && (is_nil h || cc_hmu_eqb m HW) && cc_ok m (x :: h) d r
+  | CcRel LkW :: r => cc_hmu_eqb m HW && cc_ok HNone h d r
+  | CcRel LkR :: r => cc_hmu_eqb m HR && cc_ok HNone h d r
+  | CcRel LkF :: r => negb (is_nil h) && cc_ok m (tl h) d r
+  | CcDefer l :: r => cc_ok m h (l :: d) r
+  | CcAct a :: r => match r with [] => cc_ctx_eqb (cc_ctx a) m h d | _ => false end
   end.
 
 Lemma hmu_eqb_eq a b : cc_hmu_eqb a b = true -> a = b.
@@ -76,77 +81,148 @@ Proof.
   revert b. induction a as [|x a IH]; intros [|y b] H; cbn in H; try discriminate; auto.
   apply andb_true_iff in H as [H1 H2]. apply lk_eqb_eq in H1. apply IH in H2. congruence.
 Qed.
-Lemma ctx_eqb_eq x m f d : cc_ctx_eqb x m f d = true -> x = (m, f, d).
+Lemma is_nil_true {A} (l : list A) : is_nil l = true -> l = [].
+Proof. destruct l; [reflexivity|discriminate]. Qed.
+
+Lemma ctx_eqb_eq x m h d : cc_ctx_eqb x m h d = true ->
+  x = (m, negb (is_nil h), d) /\ length h = (if snd (fst x) then 1 else 0).
 Proof.
   destruct x as [[m' f'] d']. unfold cc_ctx_eqb. cbn. intros H.
   apply andb_true_iff in H as [H H3]. apply andb_true_iff in H as [H1 H2].
-  apply hmu_eqb_eq in H1. apply Bool.eqb_prop in H2. apply lks_eqb_eq in H3. congruence.
+  apply hmu_eqb_eq in H1. apply Nat.eqb_eq in H2. apply lks_eqb_eq in H3. subst. split; [|now symmetry].
+  destruct f', h as [|x [|y h]]; cbn in *; try discriminate; reflexivity.
 Qed.
 
 Lemma cc_ok_touches m d l rest :
-  cc_ok m false d (cc_touches l ++ rest) = cc_ok m false d rest.
+  cc_ok m [] d (cc_touches l ++ rest) = cc_ok m [] d rest.
 Proof. induction l as [|r l IH]; cbn; auto. Qed.
 
-Lemma cc_ok_touches_nil m d l : cc_ok m false d (cc_touches l) = cc_okd m false d.
+Lemma cc_ok_touches_nil m d l : cc_ok m [] d (cc_touches l) = cc_okd m 0 d.
 Proof. rewrite <- (app_nil_r (cc_touches l)), cc_ok_touches. reflexivity. Qed.
 
-Lemma cc_ra_next_ok keys : cc_ok HR false [LkR] (cc_ra_next keys) = true.
+Lemma cc_ra_next_ok keys : cc_ok HR [] [LkR] (cc_ra_next keys) = true.
 Proof. destruct keys; reflexivity. Qed.
 
-Definition cc_ok_ctx (a : cc_aid) (code : list cc_instr) : bool :=
-  cc_ok (fst (fst (cc_ctx a))) (snd (fst (cc_ctx a))) (snd (cc_ctx a)) code.
+(* ---- the nested holds of Rename: under mu write-locked, [cc_touches_h] and [cc_holding] leave what
+   is held as it was, whatever they are given ---- *)
+Lemma cc_ok_touches_h h d l rest : cc_ok HW h d (cc_touches_h h l ++ rest) = cc_ok HW h d rest.
+Proof.
+  induction l as [|r l IH]; [reflexivity|]. unfold cc_touches_h in *. cbn [flat_map].
+  destruct (cc_heldb r h) eqn:E; cbn [app]; [exact IH|].
+  cbn [cc_ok]. rewrite E. cbn [negb andb cc_hmu_eqb is_nil tl]. rewrite orb_true_r. cbn [andb]. exact IH.
+Qed.
+
+Lemma cc_ok_holding d hs : forall h inner rest,
+  (forall h' rest', cc_ok HW h' d (inner h' ++ rest') = cc_ok HW h' d rest') ->
+  cc_ok HW h d (cc_holding h hs inner ++ rest) = cc_ok HW h d rest.
+Proof.
+  induction hs as [|r hs IH]; intros h inner rest Hin; cbn [cc_holding]; [apply Hin|].
+  destruct (cc_heldb r h) eqn:E; [now apply IH|].
+  cbn [app cc_ok]. rewrite E. cbn [negb andb cc_hmu_eqb]. rewrite orb_true_r. cbn [andb].
+  rewrite <- app_assoc, IH by exact Hin. reflexivity.
+Qed.
+
+Lemma cc_ok_flat_map {A} d (g : A -> list cc_instr) l h rest :
+  (forall x rest', cc_ok HW h d (g x ++ rest') = cc_ok HW h d rest') ->
+  cc_ok HW h d (flat_map g l ++ rest) = cc_ok HW h d rest.
+Proof.
+  intros Hg. induction l as [|x l IH]; [reflexivity|]. cbn [flat_map]. now rewrite <- app_assoc, Hg.
+Qed.
+
+Lemma cc_rename_code_ok s p q d rest :
+  cc_ok HW [] d (cc_rename_code s p q ++ rest) = cc_ok HW [] d rest.
+Proof.
+  unfold cc_rename_code. destruct (lookup s p) as [f|]; [|reflexivity].
+  apply cc_ok_holding. intros h' rest'.
+  rewrite <- !app_assoc, cc_ok_touches_h, cc_ok_flat_map; [apply cc_ok_touches_h|].
+  intros x rest2. destruct (filter _ _) as [|k kids]; [reflexivity|].
+  destruct (prefixb _ _); [apply cc_ok_touches_h|].
+  apply cc_ok_holding. intros h2 rest3. apply cc_ok_touches_h.
+Qed.
+
+(* code that consists of lock operations only *)
+Definition cc_lockonly (code : list cc_instr) : bool :=
+  forallb (fun i => match i with CcAcq _ _ | CcRel _ => true | _ => false end) code.
+Lemma lockonly_touches_h h l : cc_lockonly (cc_touches_h h l) = true.
+Proof. unfold cc_lockonly, cc_touches_h. induction l as [|r l IH]; [reflexivity|]. cbn [flat_map]. rewrite forallb_app, IH. destruct (cc_heldb r h); reflexivity. Qed.
+Lemma lockonly_holding hs : forall h inner, (forall h', cc_lockonly (inner h') = true) -> cc_lockonly (cc_holding h hs inner) = true.
+Proof.
+  induction hs as [|r hs IH]; intros h inner Hin; cbn [cc_holding]; [apply Hin|].
+  destruct (cc_heldb r h); [now apply IH|]. unfold cc_lockonly in *. cbn [forallb]. rewrite forallb_app, IH by exact Hin. reflexivity.
+Qed.
+Lemma lockonly_flat_map {A} (g : A -> list cc_instr) l : (forall x, cc_lockonly (g x) = true) -> cc_lockonly (flat_map g l) = true.
+Proof. intros Hg. unfold cc_lockonly in *. induction l as [|x l IH]; [reflexivity|]. cbn [flat_map]. now rewrite forallb_app, Hg, IH. Qed.
+Lemma lockonly_rename_code s p q : cc_lockonly (cc_rename_code s p q) = true.
+Proof.
+  unfold cc_rename_code. destruct (lookup s p) as [f|]; [|reflexivity].
+  apply lockonly_holding. intros h'. unfold cc_lockonly. rewrite !forallb_app.
+  fold (cc_lockonly (cc_touches_h h' (f :: find_descendants s p))). rewrite lockonly_touches_h.
+  fold (cc_lockonly (cc_touches_h h' (cc_node_at s (cc_parent_path q)))). rewrite lockonly_touches_h. rewrite andb_true_r. cbn [andb].
+  apply lockonly_flat_map. intros x. destruct (filter _ _) as [|k kids]; [reflexivity|].
+  destruct (prefixb _ _); [apply lockonly_touches_h|]. apply lockonly_holding. intros h2. apply lockonly_touches_h.
+Qed.
+
+Definition cc_ok_ctx (a : cc_aid) (h : list nat) (code : list cc_instr) : bool :=
+  cc_ok (fst (fst (cc_ctx a))) h (snd (cc_ctx a)) code.
 Definition cc_okd_ctx (a : cc_aid) : bool :=
-  cc_okd (fst (fst (cc_ctx a))) (snd (fst (cc_ctx a))) (snd (cc_ctx a)).
+  cc_okd (fst (fst (cc_ctx a))) (ctx_len a) (snd (cc_ctx a)).
 
 (* THE SECTION TABLE IS WELL BRACKETED: whatever an action finds in the shared state, the code it
    continues with is well bracketed for the locks it runs under; and if it panics, either the
    deferred unlocks registered so far release everything or the action is the one leaky section *)
-Lemma cc_sem_ok a f s :
+Lemma cc_sem_ok a f s h : length h = ctx_len a ->
   match cc_sem a f s with
-  | CcCont _ _ code => cc_ok_ctx a code = true
+  | CcCont _ _ code => cc_ok_ctx a h code = true
   | CcPanic _ => cc_leaky a = true \/ cc_okd_ctx a = true
   end.
 Proof.
-  unfold cc_ok_ctx, cc_okd_ctx.
-  destruct a; cbn [cc_sem cc_ctx fst snd cc_leaky];
+  unfold cc_ok_ctx, cc_okd_ctx, ctx_len. intros Hlen.
+  destruct a; cbn [cc_ctx fst snd] in Hlen; destruct h as [|x0 [|x1 h]]; try discriminate Hlen; clear Hlen;
+    cbn [cc_sem cc_ctx fst snd cc_leaky];
     repeat match goal with
-           | |- context [cc_ok _ false _ (cc_touches _ ++ _)] => rewrite cc_ok_touches
+           | |- context [cc_ok _ [] _ (cc_touches _ ++ _)] => rewrite cc_ok_touches
+           | |- context [cc_ok HW [] _ (cc_rename_code _ _ _ ++ _)] => rewrite cc_rename_code_ok
            | |- match (let '(_, _) := ?x in _) with _ => _ end => destruct x
            | |- match (match ?x with _ => _ end) with _ => _ end => destruct x
            | |- match (if ?x then _ else _) with _ => _ end => destruct x
            end;
-    cbn [cc_ok cc_okd cc_hmu_eqb negb andb cc_ctx cc_ctx_eqb fst snd Bool.eqb cc_lks_eqb cc_lk_eqb];
+    cbn [cc_ok cc_okd cc_hmu_eqb negb andb orb cc_ctx cc_ctx_eqb fst snd Nat.eqb Nat.ltb Nat.leb pred length tl is_nil cc_lks_eqb cc_lk_eqb cc_heldb existsb];
     try rewrite cc_ra_next_ok; try rewrite cc_ok_touches_nil;
+    cbn [cc_ok cc_okd cc_hmu_eqb negb andb orb Nat.eqb Nat.ltb Nat.leb pred length];
     auto.
 Qed.
 
-Lemma cc_begin_ok lg o slots : cc_ok HNone false [] (snd (cc_begin lg o slots)) = true.
+Lemma cc_begin_ok lg o slots : cc_ok HNone [] [] (snd (cc_begin lg o slots)) = true.
 Proof.
   destruct lg, o; cbn; try reflexivity;
     repeat match goal with |- context [match ?x with _ => _ end] => destruct x end; reflexivity.
 Qed.
 
 (* ------------------------------------------------------------------ the invariant *)
-Definition cc_hasf (th : cc_thread) : bool := match th_f th with Some _ => true | None => false end.
+Definition cc_hasf (th : cc_thread) : bool := negb (is_nil (th_f th)).
 
 Definition cc_th_wt (th : cc_thread) : Prop :=
-  (th_active th = true /\ cc_ok (th_mu th) (cc_hasf th) (th_defers th) (th_code th) = true) \/
-  (th_active th = false /\ th_mu th = HNone /\ th_f th = None /\ th_defers th = [] /\ th_code th = []).
+  (th_active th = true /\ cc_ok (th_mu th) (th_f th) (th_defers th) (th_code th) = true) \/
+  (th_active th = false /\ th_mu th = HNone /\ th_f th = [] /\ th_defers th = [] /\ th_code th = []).
 
-Definition held_of (th : cc_thread) : cc_hmu * option nat := (th_mu th, th_f th).
-Definition is_hr (h : cc_hmu * option nat) : bool := cc_hmu_eqb (fst h) HR.
-Definition count_r (hs : list (cc_hmu * option nat)) : nat := length (filter is_hr hs).
+Definition held_of (th : cc_thread) : cc_hmu * list nat := (th_mu th, th_f th).
+Definition is_hr (h : cc_hmu * list nat) : bool := cc_hmu_eqb (fst h) HR.
+Definition count_r (hs : list (cc_hmu * list nat)) : nat := length (filter is_hr hs).
 
 (* the lock state is exactly the sum of what the threads hold *)
-Definition locks_wf (mu : cc_mu) (fm : nat -> option nat) (hs : list (cc_hmu * option nat)) : Prop :=
+Definition mu_wf (mu : cc_mu) (hs : list (cc_hmu * list nat)) : Prop :=
   match mu with
   | CcFree => forall t h, nth_error hs t = Some h -> fst h = HNone
   | CcW t0 => (exists h0, nth_error hs t0 = Some h0 /\ fst h0 = HW) /\
               (forall t h, nth_error hs t = Some h -> t <> t0 -> fst h = HNone)
   | CcR n => n >= 1 /\ count_r hs = n /\ (forall t h, nth_error hs t = Some h -> fst h <> HW)
-  end /\
-  (forall r t, fm r = Some t -> exists h, nth_error hs t = Some h /\ snd h = Some r) /\
-  (forall t h r, nth_error hs t = Some h -> snd h = Some r -> fm r = Some t).
+  end.
+Definition f_wf (fm : nat -> option nat) (hs : list (cc_hmu * list nat)) : Prop :=
+  (forall r t, fm r = Some t -> exists h, nth_error hs t = Some h /\ In r (snd h)) /\
+  (forall t h r, nth_error hs t = Some h -> In r (snd h) -> fm r = Some t) /\
+  (forall t h, nth_error hs t = Some h -> NoDup (snd h)).
+Definition locks_wf (mu : cc_mu) (fm : nat -> option nat) (hs : list (cc_hmu * list nat)) : Prop :=
+  mu_wf mu hs /\ f_wf fm hs.
 
 Definition cc_inv (c : cc_cfg) : Prop :=
   locks_wf (cf_mu c) (cf_fm c) (map held_of (cf_threads c)) /\
@@ -181,7 +257,7 @@ Proof. apply nth_error_map_some. Qed.
 Lemma wf_holds_w mu fm hs t h :
   locks_wf mu fm hs -> nth_error hs t = Some h -> fst h = HW -> mu = CcW t.
 Proof.
-  intros [Hmu _] Hn Hh. destruct mu as [|n|t0].
+  intros [Hmu _] Hn Hh. destruct mu as [|n|t0]; cbn in Hmu.
   - rewrite (Hmu t h Hn) in Hh. discriminate.
   - destruct Hmu as (_ & _ & Hno). now destruct (Hno t h Hn).
   - destruct Hmu as [_ Hoth]. destruct (Nat.eq_dec t t0) as [->|Hne]; [reflexivity|].
@@ -191,17 +267,13 @@ Qed.
 Lemma wf_holds_r mu fm hs t h :
   locks_wf mu fm hs -> nth_error hs t = Some h -> fst h = HR -> exists n, mu = CcR (S n).
 Proof.
-  intros [Hmu _] Hn Hh. destruct mu as [|n|t0].
+  intros [Hmu _] Hn Hh. destruct mu as [|n|t0]; cbn in Hmu.
   - rewrite (Hmu t h Hn) in Hh. discriminate.
   - destruct Hmu as (Hge & _). destruct n; [lia|]. eauto.
   - destruct Hmu as [(h0 & Hn0 & Hh0) Hoth]. destruct (Nat.eq_dec t t0) as [->|Hne].
     + rewrite Hn in Hn0. inversion Hn0; subst. congruence.
     + rewrite (Hoth t h Hn Hne) in Hh. discriminate.
 Qed.
-
-Lemma wf_free_none mu fm hs t h :
-  locks_wf mu fm hs -> mu = CcFree -> nth_error hs t = Some h -> fst h = HNone.
-Proof. intros [Hmu _] -> Hn. exact (Hmu t h Hn). Qed.
 
 (* a thread's update that does not change what it holds *)
 Lemma wf_same mu fm (ths : list cc_thread) t th th' :
@@ -211,32 +283,11 @@ Proof.
   intros H Hn He. rewrite map_list_set, He, list_set_same; [exact H|]. now apply nth_held.
 Qed.
 
-(* acquisitions and releases on the held-list *)
-Lemma wf_acq_w fm hs t h :
-  locks_wf CcFree fm hs -> nth_error hs t = Some h ->
-  locks_wf (CcW t) fm (list_set t (HW, snd h) hs).
+(* the file part does not see a change of what a thread holds of mu, and conversely *)
+Lemma f_wf_set_fst fm hs t h m :
+  f_wf fm hs -> nth_error hs t = Some h -> f_wf fm (list_set t (m, snd h) hs).
 Proof.
-  intros (Hmu & Hf1 & Hf2) Hn. split; [|split].
-  - split.
-    + exists (HW, snd h). split; [now apply nth_list_set_eq with (x := h)|reflexivity].
-    + intros t' h' Hn' Hne. rewrite nth_list_set_ne in Hn' by congruence. eauto.
-  - intros r t' Hr. destruct (Hf1 r t' Hr) as (h' & Hn' & Hs).
-    destruct (Nat.eq_dec t t') as [<-|Hne].
-    + rewrite Hn in Hn'. inversion Hn'; subst. exists (HW, snd h'). split; [now apply nth_list_set_eq with (x := h')|exact Hs].
-    + exists h'. rewrite nth_list_set_ne by exact Hne. auto.
-  - intros t' h' r Hn' Hs. destruct (Nat.eq_dec t t') as [<-|Hne].
-    + rewrite (nth_list_set_eq _ _ _ _ Hn) in Hn'. inversion Hn'; subst. cbn in Hs. eauto.
-    + rewrite nth_list_set_ne in Hn' by exact Hne. eauto.
-Qed.
-
-Lemma wf_fm_list_set (fm : nat -> option nat) (hs : list (cc_hmu * option nat)) t h m :
-  (forall r t, fm r = Some t -> exists h, nth_error hs t = Some h /\ snd h = Some r) /\
-  (forall t h r, nth_error hs t = Some h -> snd h = Some r -> fm r = Some t) ->
-  nth_error hs t = Some h ->
-  (forall r t', fm r = Some t' -> exists h', nth_error (list_set t (m, snd h) hs) t' = Some h' /\ snd h' = Some r) /\
-  (forall t' h' r, nth_error (list_set t (m, snd h) hs) t' = Some h' -> snd h' = Some r -> fm r = Some t').
-Proof.
-  intros [Hf1 Hf2] Hn. split.
+  intros (Hf1 & Hf2 & Hf3) Hn. split; [|split].
   - intros r t' Hr. destruct (Hf1 r t' Hr) as (h' & Hn' & Hs).
     destruct (Nat.eq_dec t t') as [<-|Hne].
     + rewrite Hn in Hn'. inversion Hn'; subst. exists (m, snd h'). split; [now apply nth_list_set_eq with (x := h')|exact Hs].
@@ -244,6 +295,41 @@ Proof.
   - intros t' h' r Hn' Hs. destruct (Nat.eq_dec t t') as [<-|Hne].
     + rewrite (nth_list_set_eq _ _ _ _ Hn) in Hn'. inversion Hn'; subst. cbn in Hs. eauto.
     + rewrite nth_list_set_ne in Hn' by exact Hne. eauto.
+  - intros t' h' Hn'. destruct (Nat.eq_dec t t') as [<-|Hne].
+    + rewrite (nth_list_set_eq _ _ _ _ Hn) in Hn'. inversion Hn'; subst. cbn. eauto.
+    + rewrite nth_list_set_ne in Hn' by exact Hne. eauto.
+Qed.
+
+Lemma mu_wf_set_snd mu hs t h f' :
+  mu_wf mu hs -> nth_error hs t = Some h -> mu_wf mu (list_set t (fst h, f') hs).
+Proof.
+  intros Hmu Hn. destruct mu as [|n|t0]; cbn in *.
+  - intros t' h' Hn'. destruct (Nat.eq_dec t t') as [<-|Hne].
+    + rewrite (nth_list_set_eq _ _ _ _ Hn) in Hn'. inversion Hn'; subst. cbn. eauto.
+    + rewrite nth_list_set_ne in Hn' by exact Hne. eauto.
+  - destruct Hmu as (Hge & Hcnt & Hno). split; [exact Hge|]. split.
+    + pose proof (count_r_list_set hs t h (fst h, f') Hn) as Hc.
+      assert (H : is_hr (fst h, f') = is_hr h) by reflexivity. rewrite H in Hc. destruct (is_hr h); lia.
+    + intros t' h' Hn'. destruct (Nat.eq_dec t t') as [<-|Hne].
+      * rewrite (nth_list_set_eq _ _ _ _ Hn) in Hn'. inversion Hn'; subst. cbn. eauto.
+      * rewrite nth_list_set_ne in Hn' by exact Hne. eauto.
+  - destruct Hmu as [(h0 & Hn0 & Hh0) Hoth]. split.
+    + destruct (Nat.eq_dec t t0) as [->|Hne].
+      * rewrite Hn in Hn0. inversion Hn0; subst. exists (fst h0, f'). split; [now apply nth_list_set_eq with (x := h0)|exact Hh0].
+      * exists h0. rewrite nth_list_set_ne by exact Hne. auto.
+    + intros t' h' Hn' Hne'. destruct (Nat.eq_dec t t') as [<-|Hne].
+      * rewrite (nth_list_set_eq _ _ _ _ Hn) in Hn'. inversion Hn'; subst. cbn. eauto.
+      * rewrite nth_list_set_ne in Hn' by exact Hne. eauto.
+Qed.
+
+(* acquisitions and releases on the held-list *)
+Lemma wf_acq_w fm hs t h :
+  locks_wf CcFree fm hs -> nth_error hs t = Some h ->
+  locks_wf (CcW t) fm (list_set t (HW, snd h) hs).
+Proof.
+  intros (Hmu & Hf) Hn. split; [|now apply f_wf_set_fst]. cbn in *. split.
+  - exists (HW, snd h). split; [now apply nth_list_set_eq with (x := h)|reflexivity].
+  - intros t' h' Hn' Hne. rewrite nth_list_set_ne in Hn' by congruence. eauto.
 Qed.
 
 Lemma wf_acq_r mu fm hs t h :
@@ -251,11 +337,11 @@ Lemma wf_acq_r mu fm hs t h :
   (mu = CcFree \/ exists n, mu = CcR n) ->
   locks_wf (match mu with CcR n => CcR (S n) | _ => CcR 1 end) fm (list_set t (HR, snd h) hs).
 Proof.
-  intros (Hmu & Hf) Hn Hh Hm. split; [|exact (wf_fm_list_set fm hs t h HR Hf Hn)].
+  intros (Hmu & Hf) Hn Hh Hm. split; [|now apply f_wf_set_fst].
   pose proof (count_r_list_set hs t h (HR, snd h) Hn) as Hc.
   assert (Hih : is_hr h = false) by (unfold is_hr; now rewrite Hh).
   rewrite Hih in Hc. cbn in Hc.
-  destruct Hm as [->|[n ->]].
+  destruct Hm as [->|[n ->]]; cbn in *.
   - split; [lia|]. split.
     + assert (count_r hs = 0).
       { unfold count_r. clear -Hmu. assert (forall t h, nth_error hs t = Some h -> is_hr h = false).
@@ -273,46 +359,35 @@ Proof.
 Qed.
 
 Lemma wf_acq_f mu fm hs t h r :
-  locks_wf mu fm hs -> nth_error hs t = Some h -> snd h = None -> fm r = None ->
-  locks_wf mu (fm_set fm r (Some t)) (list_set t (fst h, Some r) hs).
+  locks_wf mu fm hs -> nth_error hs t = Some h -> fm r = None ->
+  locks_wf mu (fm_set fm r (Some t)) (list_set t (fst h, r :: snd h) hs).
 Proof.
-  intros (Hmu & Hf1 & Hf2) Hn Hs Hr. split; [|split].
-  - destruct mu as [|n|t0].
-    + intros t' h' Hn'. destruct (Nat.eq_dec t t') as [<-|Hne].
-      * rewrite (nth_list_set_eq _ _ _ _ Hn) in Hn'. inversion Hn'; subst. cbn. eauto.
-      * rewrite nth_list_set_ne in Hn' by exact Hne. eauto.
-    + destruct Hmu as (Hge & Hcnt & Hno). split; [exact Hge|]. split.
-      * pose proof (count_r_list_set hs t h (fst h, Some r) Hn) as Hc.
-        assert (is_hr (fst h, Some r) = is_hr h) by reflexivity. rewrite H in Hc. destruct (is_hr h); lia.
-      * intros t' h' Hn'. destruct (Nat.eq_dec t t') as [<-|Hne].
-        -- rewrite (nth_list_set_eq _ _ _ _ Hn) in Hn'. inversion Hn'; subst. cbn. eauto.
-        -- rewrite nth_list_set_ne in Hn' by exact Hne. eauto.
-    + destruct Hmu as [(h0 & Hn0 & Hh0) Hoth]. split.
-      * destruct (Nat.eq_dec t t0) as [->|Hne].
-        -- rewrite Hn in Hn0. inversion Hn0; subst. exists (fst h0, Some r). split; [now apply nth_list_set_eq with (x := h0)|exact Hh0].
-        -- exists h0. rewrite nth_list_set_ne by exact Hne. auto.
-      * intros t' h' Hn' Hne'. destruct (Nat.eq_dec t t') as [<-|Hne].
-        -- rewrite (nth_list_set_eq _ _ _ _ Hn) in Hn'. inversion Hn'; subst. cbn. eauto.
-        -- rewrite nth_list_set_ne in Hn' by exact Hne. eauto.
+  intros (Hmu & Hf1 & Hf2 & Hf3) Hn Hr. split; [now apply mu_wf_set_snd|]. split; [|split].
   - intros r' t' Hr'. unfold fm_set in Hr'. destruct (Nat.eqb r' r) eqn:He.
     + apply Nat.eqb_eq in He. subst r'. inversion Hr'; subst t'.
-      exists (fst h, Some r). split; [now apply nth_list_set_eq with (x := h)|reflexivity].
+      exists (fst h, r :: snd h). split; [now apply nth_list_set_eq with (x := h)|now left].
     + destruct (Hf1 r' t' Hr') as (h' & Hn' & Hs'). destruct (Nat.eq_dec t t') as [<-|Hne].
-      * rewrite Hn in Hn'. inversion Hn'; subst. congruence.
+      * rewrite Hn in Hn'. inversion Hn'; subst. exists (fst h', r :: snd h').
+        split; [now apply nth_list_set_eq with (x := h')|now right].
       * exists h'. rewrite nth_list_set_ne by exact Hne. auto.
   - intros t' h' r' Hn' Hs'. unfold fm_set. destruct (Nat.eq_dec t t') as [<-|Hne].
-    + rewrite (nth_list_set_eq _ _ _ _ Hn) in Hn'. inversion Hn'; subst. cbn in Hs'. inversion Hs'; subst.
-      now rewrite Nat.eqb_refl.
+    + rewrite (nth_list_set_eq _ _ _ _ Hn) in Hn'. inversion Hn'; subst. cbn in Hs'.
+      destruct Hs' as [<-|Hs']; [now rewrite Nat.eqb_refl|].
+      destruct (Nat.eqb r' r) eqn:He; [reflexivity|]. eauto.
     + rewrite nth_list_set_ne in Hn' by exact Hne. destruct (Nat.eqb r' r) eqn:He.
       * apply Nat.eqb_eq in He. subst r'. rewrite (Hf2 t' h' r Hn' Hs') in Hr. discriminate.
       * eauto.
+  - intros t' h' Hn'. destruct (Nat.eq_dec t t') as [<-|Hne].
+    + rewrite (nth_list_set_eq _ _ _ _ Hn) in Hn'. inversion Hn'; subst. cbn. constructor; [|eauto].
+      intros Hin. rewrite (Hf2 t h r Hn Hin) in Hr. discriminate.
+    + rewrite nth_list_set_ne in Hn' by exact Hne. eauto.
 Qed.
 
 Lemma wf_rel_w fm hs t h :
   locks_wf (CcW t) fm hs -> nth_error hs t = Some h ->
   locks_wf CcFree fm (list_set t (HNone, snd h) hs).
 Proof.
-  intros (Hmu & Hf) Hn. split; [|exact (wf_fm_list_set fm hs t h HNone Hf Hn)].
+  intros (Hmu & Hf) Hn. split; [|now apply f_wf_set_fst]. cbn in *.
   destruct Hmu as [_ Hoth]. intros t' h' Hn'. destruct (Nat.eq_dec t t') as [<-|Hne].
   - rewrite (nth_list_set_eq _ _ _ _ Hn) in Hn'. now inversion Hn'.
   - rewrite nth_list_set_ne in Hn' by exact Hne. apply (Hoth t' h' Hn'). congruence.
@@ -322,12 +397,12 @@ Lemma wf_rel_r n fm hs t h :
   locks_wf (CcR (S n)) fm hs -> nth_error hs t = Some h -> fst h = HR ->
   locks_wf (match n with O => CcFree | S _ => CcR n end) fm (list_set t (HNone, snd h) hs).
 Proof.
-  intros (Hmu & Hf) Hn Hh. split; [|exact (wf_fm_list_set fm hs t h HNone Hf Hn)].
+  intros (Hmu & Hf) Hn Hh. split; [|now apply f_wf_set_fst]. cbn in Hmu.
   destruct Hmu as (Hge & Hcnt & Hno).
   pose proof (count_r_list_set hs t h (HNone, snd h) Hn) as Hc.
   assert (Hih : is_hr h = true) by (unfold is_hr; now rewrite Hh).
   rewrite Hih in Hc. cbn in Hc.
-  destruct n as [|n].
+  destruct n as [|n]; cbn.
   - intros t' h' Hn'. destruct (Nat.eq_dec t t') as [<-|Hne].
     + rewrite (nth_list_set_eq _ _ _ _ Hn) in Hn'. now inversion Hn'.
     + assert (Hz : count_r (list_set t (HNone, snd h) hs) = 0) by lia.
@@ -342,39 +417,31 @@ Proof.
     + rewrite nth_list_set_ne in Hn' by exact Hne. eauto.
 Qed.
 
-Lemma wf_rel_f mu fm hs t h r :
-  locks_wf mu fm hs -> nth_error hs t = Some h -> snd h = Some r ->
-  locks_wf mu (fm_set fm r None) (list_set t (fst h, None) hs).
+Lemma wf_rel_f mu fm hs t h r rest :
+  locks_wf mu fm hs -> nth_error hs t = Some h -> snd h = r :: rest ->
+  locks_wf mu (fm_set fm r None) (list_set t (fst h, rest) hs).
 Proof.
-  intros (Hmu & Hf1 & Hf2) Hn Hs. split; [|split].
-  - destruct mu as [|n|t0].
-    + intros t' h' Hn'. destruct (Nat.eq_dec t t') as [<-|Hne].
-      * rewrite (nth_list_set_eq _ _ _ _ Hn) in Hn'. inversion Hn'; subst. cbn. eauto.
-      * rewrite nth_list_set_ne in Hn' by exact Hne. eauto.
-    + destruct Hmu as (Hge & Hcnt & Hno). split; [exact Hge|]. split.
-      * pose proof (count_r_list_set hs t h (fst h, None) Hn) as Hc.
-        assert (is_hr (fst h, @None nat) = is_hr h) by reflexivity. rewrite H in Hc. destruct (is_hr h); lia.
-      * intros t' h' Hn'. destruct (Nat.eq_dec t t') as [<-|Hne].
-        -- rewrite (nth_list_set_eq _ _ _ _ Hn) in Hn'. inversion Hn'; subst. cbn. eauto.
-        -- rewrite nth_list_set_ne in Hn' by exact Hne. eauto.
-    + destruct Hmu as [(h0 & Hn0 & Hh0) Hoth]. split.
-      * destruct (Nat.eq_dec t t0) as [->|Hne].
-        -- rewrite Hn in Hn0. inversion Hn0; subst. exists (fst h0, None). split; [now apply nth_list_set_eq with (x := h0)|exact Hh0].
-        -- exists h0. rewrite nth_list_set_ne by exact Hne. auto.
-      * intros t' h' Hn' Hne'. destruct (Nat.eq_dec t t') as [<-|Hne].
-        -- rewrite (nth_list_set_eq _ _ _ _ Hn) in Hn'. inversion Hn'; subst. cbn. eauto.
-        -- rewrite nth_list_set_ne in Hn' by exact Hne. eauto.
+  intros (Hmu & Hf1 & Hf2 & Hf3) Hn Hs. split; [now apply mu_wf_set_snd|].
+  pose proof (Hf3 t h Hn) as Hnd. rewrite Hs in Hnd. inversion Hnd as [|? ? Hnotin Hnd']; subst.
+  split; [|split].
   - intros r' t' Hr'. unfold fm_set in Hr'. destruct (Nat.eqb r' r) eqn:He; [discriminate|].
     destruct (Hf1 r' t' Hr') as (h' & Hn' & Hs'). destruct (Nat.eq_dec t t') as [<-|Hne].
-    + rewrite Hn in Hn'. inversion Hn'; subst. rewrite Hs in Hs'. inversion Hs'; subst.
-      rewrite Nat.eqb_refl in He. discriminate.
+    + rewrite Hn in Hn'. inversion Hn'; subst. rewrite Hs in Hs'. destruct Hs' as [<-|Hs'].
+      * rewrite Nat.eqb_refl in He. discriminate.
+      * exists (fst h', rest). split; [now apply nth_list_set_eq with (x := h')|exact Hs'].
     + exists h'. rewrite nth_list_set_ne by exact Hne. auto.
   - intros t' h' r' Hn' Hs'. unfold fm_set. destruct (Nat.eq_dec t t') as [<-|Hne].
-    + rewrite (nth_list_set_eq _ _ _ _ Hn) in Hn'. inversion Hn'; subst. discriminate.
+    + rewrite (nth_list_set_eq _ _ _ _ Hn) in Hn'. inversion Hn'; subst. cbn in Hs'.
+      destruct (Nat.eqb r' r) eqn:He.
+      * apply Nat.eqb_eq in He. subst r'. contradiction.
+      * apply (Hf2 t h r' Hn). rewrite Hs. now right.
     + rewrite nth_list_set_ne in Hn' by exact Hne. destruct (Nat.eqb r' r) eqn:He.
       * apply Nat.eqb_eq in He. subst r'. pose proof (Hf2 t' h' r Hn' Hs') as H1.
-        pose proof (Hf2 t h r Hn Hs) as H2. congruence.
+        assert (H2 : fm r = Some t) by (apply (Hf2 t h r Hn); rewrite Hs; now left). congruence.
       * eauto.
+  - intros t' h' Hn'. destruct (Nat.eq_dec t t') as [<-|Hne].
+    + rewrite (nth_list_set_eq _ _ _ _ Hn) in Hn'. inversion Hn'; subst. exact Hnd'.
+    + rewrite nth_list_set_ne in Hn' by exact Hne. eauto.
 Qed.
 
 (* ------------------------------------------------------------------ one step *)
@@ -412,14 +479,14 @@ Proof. unfold cc_next_of. destruct (th_active th); [|destruct (th_prog th); disc
   destruct (th_code th); [|discriminate]. destruct (th_defers th); [auto|discriminate]. Qed.
 
 Lemma wt_active th : cc_th_wt th -> th_active th = true ->
-  cc_ok (th_mu th) (cc_hasf th) (th_defers th) (th_code th) = true.
+  cc_ok (th_mu th) (th_f th) (th_defers th) (th_code th) = true.
 Proof. intros [[_ H]|[H _]] Ha; [exact H|congruence]. Qed.
 
 Definition holds (th : cc_thread) (l : cc_lk) : Prop :=
-  match l with LkW => th_mu th = HW | LkR => th_mu th = HR | LkF => exists r, th_f th = Some r end.
+  match l with LkW => th_mu th = HW | LkR => th_mu th = HR | LkF => exists r rest, th_f th = r :: rest end.
 
-Definition after_rel (th : cc_thread) (l : cc_lk) : cc_hmu * option nat :=
-  match l with LkW | LkR => (HNone, th_f th) | LkF => (th_mu th, None) end.
+Definition after_rel (th : cc_thread) (l : cc_lk) : cc_hmu * list nat :=
+  match l with LkW | LkR => (HNone, th_f th) | LkF => (th_mu th, tl (th_f th)) end.
 
 (* a release of a lock the thread holds succeeds and keeps the lock state well formed *)
 Lemma cc_release_spec c t th th1 l :
@@ -440,21 +507,24 @@ Proof.
   - destruct (wf_holds_r _ _ _ t _ Hwf Hnh Hh) as [n Hmu]. rewrite Hmu, Hm, Hh.
     eexists _, _. split; [rewrite Hf; reflexivity|]. rewrite Hmu in Hwf.
     apply (wf_rel_r n _ _ t _ Hwf Hnh Hh).
-  - destruct Hh as [r Hr]. rewrite Hf, Hr.
-    destruct Hwf as (Hmu & Hf1 & Hf2). pose proof (Hf2 t _ r Hnh Hr) as Hfm. rewrite Hfm, Nat.eqb_refl.
+  - destruct Hh as (r & rest & Hr). rewrite Hf, Hr. cbn [tl].
+    pose proof Hwf as (Hmu & Hf1 & Hf2 & Hf3).
+    assert (Hfm : cf_fm c r = Some t) by (apply (Hf2 t _ r Hnh); cbn; rewrite Hr; now left).
+    rewrite Hfm, Nat.eqb_refl.
     eexists _, _. split; [rewrite Hm; reflexivity|].
-    apply (wf_rel_f _ _ _ t (held_of th) r (conj Hmu (conj Hf1 Hf2)) Hnh Hr).
+    apply (wf_rel_f _ _ _ t (held_of th) r rest Hwf Hnh Hr).
 Qed.
 
 Lemma okd_holds m f l d : cc_okd m f (l :: d) = true ->
-  match l with LkW => m = HW | LkR => m = HR | LkF => f = true end /\
-  cc_okd (match l with LkF => m | _ => HNone end) (match l with LkF => false | _ => f end) d = true.
+  match l with LkW => m = HW | LkR => m = HR | LkF => 0 < f end /\
+  cc_okd (match l with LkF => m | _ => HNone end) (match l with LkF => pred f | _ => f end) d = true.
 Proof.
-  destruct l; cbn; intros H; apply andb_true_iff in H as [H1 H2]; try apply hmu_eqb_eq in H1; auto.
+  destruct l; cbn [cc_okd]; intros H; apply andb_true_iff in H as [H1 H2]; try apply hmu_eqb_eq in H1; auto.
+  apply Nat.ltb_lt in H1. auto.
 Qed.
 
-Lemma hasf_set_held th m fo : cc_hasf (th_set_held th m fo) = match fo with Some _ => true | None => false end.
-Proof. reflexivity. Qed.
+Lemma length_tl {A} (l : list A) : length (tl l) = pred (length l).
+Proof. destruct l; reflexivity. Qed.
 
 Lemma cc_release_threads c t th1 l :
   exists x, cf_threads (cc_release c t th1 l) = list_set t x (cf_threads c) /\ th_leaked x = th_leaked th1.
@@ -526,7 +596,7 @@ Proof.
     destruct Hwt as [[Ha _]|(_ & Hm & Hf & Hd & Hc)]; [congruence|].
     split; [split|]; cbn; [| |exact Hbad].
     + eapply wf_same; eauto.
-    + eapply threads_set; eauto. left. cbn. split; [reflexivity|]. unfold cc_hasf. cbn. rewrite Hm, Hf.
+    + eapply threads_set; eauto. left. cbn. split; [reflexivity|]. rewrite Hm, Hf.
       pose proof (cc_begin_ok (cf_legacy c) o (th_slots th)) as Hok. now rewrite Hb in Hok.
   - (* an instruction *)
     apply next_instr in Hnx as (Hact & r & Hc). pose proof (wt_active th Hwt Hact) as Hok. rewrite Hc in *.
@@ -537,17 +607,18 @@ Proof.
       unfold cc_can_acq in Hen. unfold cc_acquire.
       destruct l; cbn [cc_ok] in Hok.
       * apply andb_true_iff in Hok as [Hok Hok2]. apply andb_true_iff in Hok as [Hm Hf]. apply hmu_eqb_eq in Hm.
+        apply is_nil_true in Hf.
         destruct (cf_mu c) eqn:Hmu; try discriminate.
         split; [split|]; cbn; [| |exact Hbad].
         -- rewrite map_list_set. apply (wf_acq_w _ _ t (held_of th)); assumption.
         -- eapply threads_set; eauto. left. cbn. split; [exact Hact|]. exact Hok2.
       * apply andb_true_iff in Hok as [Hok Hok2]. apply andb_true_iff in Hok as [Hm Hf]. apply hmu_eqb_eq in Hm.
+        apply is_nil_true in Hf.
         split; [split|]; cbn; [| |exact Hbad].
         -- rewrite map_list_set. apply (wf_acq_r _ _ _ t (held_of th)); try assumption.
            destruct (cf_mu c); try discriminate; eauto.
         -- eapply threads_set; eauto. left. cbn. split; [exact Hact|]. exact Hok2.
-      * apply andb_true_iff in Hok as [Hf Hok2]. unfold cc_hasf in Hf.
-        destruct (th_f th) eqn:Hthf; [discriminate|].
+      * apply andb_true_iff in Hok as [Hf Hok2].
         destruct (cf_fm c x) eqn:Hfm; [discriminate|].
         split; [split|]; cbn; [| |exact Hbad].
         -- rewrite map_list_set. apply (wf_acq_f _ _ _ t (held_of th) x); assumption.
@@ -558,18 +629,20 @@ Proof.
         left. cbn. split; [exact Hact|exact Hok2].
       * apply hmu_eqb_eq in Hm. eapply (Hrelease _ LkR HNone (th_f th)); try reflexivity; [exact Hm|].
         left. cbn. split; [exact Hact|exact Hok2].
-      * unfold cc_hasf in Hm. destruct (th_f th) as [x|] eqn:Hthf; [|discriminate].
-        eapply (Hrelease _ LkF (th_mu th) None); try reflexivity.
+      * destruct (th_f th) as [|x rest] eqn:Hthf; [discriminate|].
+        eapply (Hrelease _ LkF (th_mu th) rest); try reflexivity.
         -- cbn. eauto.
+        -- unfold after_rel. now rewrite Hthf.
         -- left. cbn. split; [exact Hact|exact Hok2].
     + (* defer *)
       cbn [cc_ok] in Hok. split; [split|]; cbn; [| |exact Hbad].
       * eapply wf_same; eauto.
       * eapply threads_set; eauto. left. cbn. split; [exact Hact|exact Hok].
     + (* action *)
-      cbn [cc_ok] in Hok. destruct r; [|discriminate]. apply ctx_eqb_eq in Hok.
-      pose proof (cc_sem_ok a (th_fr th) (cf_st c)) as Hsem. unfold cc_ok_ctx, cc_okd_ctx in Hsem.
-      rewrite Hok in Hsem. cbn [fst snd] in Hsem.
+      cbn [cc_ok] in Hok. destruct r; [|discriminate]. apply ctx_eqb_eq in Hok as [Hok Hlen].
+      assert (Hlen' : length (th_f th) = ctx_len a) by (unfold ctx_len; exact Hlen).
+      pose proof (cc_sem_ok a (th_fr th) (cf_st c) (th_f th) Hlen') as Hsem. unfold cc_ok_ctx, cc_okd_ctx in Hsem.
+      rewrite <- Hlen' in Hsem. rewrite Hok in Hsem. cbn [fst snd] in Hsem.
       destruct (cc_sem a (th_fr th) (cf_st c)) as [s f code|s].
       * split; [split|]; cbn; [| |exact Hbad].
         -- eapply wf_same; eauto.
@@ -589,14 +662,15 @@ Proof.
       left. cbn. split; [exact Hact|]. rewrite Hc. exact Hok2.
     + eapply (Hrelease _ LkR HNone (th_f th)); try reflexivity; [exact Hh|].
       left. cbn. split; [exact Hact|]. rewrite Hc. exact Hok2.
-    + unfold cc_hasf in Hh. destruct (th_f th) as [x|] eqn:Hthf; [|discriminate].
-      eapply (Hrelease _ LkF (th_mu th) None); try reflexivity.
+    + destruct (th_f th) as [|x rest] eqn:Hthf; [cbn in Hh; lia|].
+      eapply (Hrelease _ LkF (th_mu th) rest); try reflexivity.
       * cbn. eauto.
-      * left. cbn. split; [exact Hact|]. rewrite Hc. exact Hok2.
+      * unfold after_rel. now rewrite Hthf.
+      * left. cbn. split; [exact Hact|]. rewrite Hc. cbn [cc_ok]. exact Hok2.
   - (* the call returns *)
     apply next_finish in Hnx as (Hact & Hc & Hd). pose proof (wt_active th Hwt Hact) as Hok.
     rewrite Hc, Hd in Hok. cbn in Hok. apply andb_true_iff in Hok as [Hm Hf]. apply hmu_eqb_eq in Hm.
-    unfold cc_hasf in Hf. destruct (th_f th) eqn:Hthf; [discriminate|].
+    apply Nat.eqb_eq in Hf. destruct (th_f th) eqn:Hthf; [|discriminate].
     split; [split|]; cbn; [| |exact Hbad].
     + eapply wf_same; eauto. unfold held_of. cbn. now rewrite Hthf.
     + eapply threads_set; eauto. right. cbn. auto.
@@ -606,12 +680,14 @@ Qed.
 (* ------------------------------------------------------------------ all schedules *)
 Lemma cc_inv_init_gen lg s progs : cc_inv (cc_init_gen lg s progs) /\ cf_bad (cc_init_gen lg s progs) = None.
 Proof.
-  split; [|reflexivity]. unfold cc_inv, cc_init_gen. cbn. split; [split; [|split]|].
+  split; [|reflexivity]. unfold cc_inv, cc_init_gen. cbn. split; [split; [|split; [|split]]|].
   - intros t h Hn. apply nth_held_inv in Hn as (th & Hn & <-).
     rewrite nth_error_map in Hn. destruct (nth_error progs t); [|discriminate]. now inversion Hn.
   - discriminate.
   - intros t h r Hn Hs. apply nth_held_inv in Hn as (th & Hn & <-).
-    rewrite nth_error_map in Hn. destruct (nth_error progs t); [|discriminate]. inversion Hn; subst. discriminate.
+    rewrite nth_error_map in Hn. destruct (nth_error progs t); [|discriminate]. inversion Hn; subst. contradiction.
+  - intros t h Hn. apply nth_held_inv in Hn as (th & Hn & <-).
+    rewrite nth_error_map in Hn. destruct (nth_error progs t); [|discriminate]. inversion Hn; subst. constructor.
   - intros t th Hn. rewrite nth_error_map in Hn. destruct (nth_error progs t); [|discriminate].
     inversion Hn; subst. right. cbn. auto.
 Qed.
@@ -645,31 +721,64 @@ Proof.
   destruct (nth_error (cf_threads c) t) eqn:Hn; [|discriminate]. apply nth_error_Some. congruence.
 Qed.
 
+(* THE LOCK ORDER.  A thread that is about to take mu holds nothing.  A thread that is about to take
+   a file mutex does not hold that mutex, and if it holds another file mutex it holds mu
+   write-locked (Rename: the parents, the directory of the children, the child). *)
 Lemma wt_acq th l r :
   cc_th_wt th -> cc_next_of th = NxInstr (CcAcq l r) ->
-  th_f th = None /\ (l <> LkF -> th_mu th = HNone).
+  (l <> LkF -> th_mu th = HNone /\ th_f th = []) /\
+  (l = LkF -> cc_heldb r (th_f th) = false /\ (th_f th = [] \/ th_mu th = HW)).
 Proof.
   intros Hwt Hnx. apply next_instr in Hnx as (Hact & rest & Hc). pose proof (wt_active th Hwt Hact) as Hok.
-  rewrite Hc in Hok. unfold cc_hasf in Hok.
+  rewrite Hc in Hok.
   destruct l; cbn [cc_ok] in Hok.
   - apply andb_true_iff in Hok as [Hok _]. apply andb_true_iff in Hok as [Hm Hf]. apply hmu_eqb_eq in Hm.
-    destruct (th_f th); [discriminate|]. auto.
+    apply is_nil_true in Hf. split; [auto|discriminate].
   - apply andb_true_iff in Hok as [Hok _]. apply andb_true_iff in Hok as [Hm Hf]. apply hmu_eqb_eq in Hm.
-    destruct (th_f th); [discriminate|]. auto.
-  - apply andb_true_iff in Hok as [Hf _]. destruct (th_f th); [discriminate|]. split; [reflexivity|congruence].
+    apply is_nil_true in Hf. split; [auto|discriminate].
+  - apply andb_true_iff in Hok as [Hok _]. apply andb_true_iff in Hok as [Hh Hm].
+    apply negb_true_iff in Hh. split; [congruence|]. intros _. split; [exact Hh|].
+    apply orb_true_iff in Hm as [Hm|Hm]; [left; now apply is_nil_true|right; now apply hmu_eqb_eq].
 Qed.
 
-Lemma wt_holder_active th : cc_th_wt th -> (th_mu th <> HNone \/ th_f th <> None) -> th_active th = true.
+Lemma wt_holder_active th : cc_th_wt th -> (th_mu th <> HNone \/ th_f th <> []) -> th_active th = true.
 Proof. intros [[Ha _]|(_ & Hm & Hf & _)] [H|H]; congruence. Qed.
 
-(* a thread that holds a file mutex is enabled: it never waits *)
-Lemma f_holder_enabled c t th :
-  cc_inv c -> nth_error (cf_threads c) t = Some th -> th_f th <> None -> cc_enabled c t = true.
+Lemma heldb_in r h : cc_heldb r h = false -> ~ In r h.
 Proof.
-  intros [_ Hth] Hn Hf. pose proof (Hth t th Hn) as Hwt.
+  unfold cc_heldb. intros H Hin. assert (existsb (Nat.eqb r) h = true); [|congruence].
+  apply existsb_exists. exists r. split; [exact Hin|apply Nat.eqb_refl].
+Qed.
+
+(* a thread that holds a file mutex without holding mu write-locked is enabled: it never waits *)
+Lemma f_holder_enabled c t th :
+  cc_inv c -> nth_error (cf_threads c) t = Some th -> th_f th <> [] -> th_mu th <> HW -> cc_enabled c t = true.
+Proof.
+  intros [_ Hth] Hn Hf Hm. pose proof (Hth t th Hn) as Hwt.
   pose proof (wt_holder_active th Hwt (or_intror Hf)) as Hact.
   unfold cc_enabled. rewrite Hn. destruct (cc_next_of th) eqn:Hnx; try reflexivity.
-  - destruct i as [l r| | |]; try reflexivity. destruct (wt_acq th l r Hwt Hnx) as [H _]. congruence.
+  - destruct i as [l r| | |]; try reflexivity. destruct (wt_acq th l r Hwt Hnx) as [H1 H2].
+    destruct l; try (now destruct (H1 ltac:(discriminate)) as [_ H]).
+    destruct (H2 eq_refl) as [_ [H|H]]; congruence.
+  - unfold cc_next_of in Hnx. rewrite Hact in Hnx. destruct (th_code th); [destruct (th_defers th)|]; discriminate.
+Qed.
+
+(* the thread that holds mu write-locked is enabled when nobody else holds a file mutex *)
+Lemma w_holder_enabled c t th :
+  cc_inv c -> nth_error (cf_threads c) t = Some th -> th_mu th = HW ->
+  (forall t' th', nth_error (cf_threads c) t' = Some th' -> th_f th' <> [] -> t' = t) ->
+  cc_enabled c t = true.
+Proof.
+  intros [Hwf Hth] Hn Hm Honly. pose proof (Hth t th Hn) as Hwt.
+  assert (Hact : th_active th = true) by (apply (wt_holder_active th Hwt); left; congruence).
+  unfold cc_enabled. rewrite Hn. destruct (cc_next_of th) eqn:Hnx; try reflexivity.
+  - destruct i as [l r| | |]; try reflexivity. destruct (wt_acq th l r Hwt Hnx) as [H1 H2].
+    destruct l; try (destruct (H1 ltac:(discriminate)) as [H _]; congruence).
+    destruct (H2 eq_refl) as [Hnot _]. cbn. destruct (cf_fm c r) as [t'|] eqn:Hfm; [|reflexivity]. exfalso.
+    destruct Hwf as (_ & Hf1 & _). destruct (Hf1 r t' Hfm) as (h & Hnh & Hin).
+    apply nth_held_inv in Hnh as (th' & Hn' & <-). cbn in Hin.
+    assert (t' = t) by (apply (Honly t' th' Hn'); intros E; rewrite E in Hin; contradiction). subst t'.
+    rewrite Hn in Hn'. inversion Hn'; subst th'. now apply heldb_in in Hnot.
   - unfold cc_next_of in Hnx. rewrite Hact in Hnx. destruct (th_code th); [destruct (th_defers th)|]; discriminate.
 Qed.
 
@@ -681,45 +790,58 @@ Proof.
   intros [_ Hth] Hfm Hn Hm. pose proof (Hth t th Hn) as Hwt.
   pose proof (wt_holder_active th Hwt (or_introl Hm)) as Hact.
   unfold cc_enabled. rewrite Hn. destruct (cc_next_of th) eqn:Hnx; try reflexivity.
-  - destruct i as [l r| | |]; try reflexivity. destruct (wt_acq th l r Hwt Hnx) as [_ H].
+  - destruct i as [l r| | |]; try reflexivity. destruct (wt_acq th l r Hwt Hnx) as [H _].
     destruct l; try (now destruct Hm; apply H). cbn. now rewrite Hfm.
   - unfold cc_next_of in Hnx. rewrite Hact in Hnx. destruct (th_code th); [destruct (th_defers th)|]; discriminate.
 Qed.
+
+Definition cc_nests_without_w (th : cc_thread) : bool := negb (is_nil (th_f th)) && negb (cc_hmu_eqb (th_mu th) HW).
 
 Theorem cc_inv_not_stuck c : cc_inv c -> cc_stuckb c = false.
 Proof.
   intros Hinv. unfold cc_stuckb. destruct (cc_any_unfinished c) eqn:Hun; [|reflexivity]. cbn.
   apply negb_false_iff.
-  destruct (existsb cc_hasf (cf_threads c)) eqn:HF.
-  - apply existsb_exists in HF as (th & Hin & Hf). apply In_nth_error in Hin as [t Hn].
-    apply (enabled_any c t). apply (f_holder_enabled c t th Hinv Hn).
-    unfold cc_hasf in Hf. destruct (th_f th); congruence.
-  - assert (Hfm : forall r, cf_fm c r = None).
-    { intros r. destruct (cf_fm c r) as [t|] eqn:Hr; [|reflexivity]. exfalso.
-      destruct Hinv as [(_ & Hf1 & _) _]. destruct (Hf1 r t Hr) as (h & Hn & Hs).
-      apply nth_held_inv in Hn as (th & Hn & <-). cbn in Hs.
-      assert (existsb cc_hasf (cf_threads c) = true).
-      { apply existsb_exists. exists th. split; [now apply nth_error_In in Hn|]. unfold cc_hasf. now rewrite Hs. }
-      congruence. }
-    unfold cc_any_unfinished in Hun. apply existsb_exists in Hun as (th & Hin & Hu).
-    apply In_nth_error in Hin as [t Hn].
-    destruct (cc_enabled c t) eqn:Hen; [now apply (enabled_any c t)|].
-    (* the unfinished thread waits for mu: whoever holds mu is enabled *)
-    pose proof Hinv as [Hwf Hth]. pose proof (Hth t th Hn) as Hwt.
-    unfold cc_enabled in Hen. rewrite Hn in Hen. unfold cc_unfinished in Hu.
-    destruct (cc_next_of th) eqn:Hnx; try discriminate.
-    destruct i as [l r| | |]; try discriminate. destruct (wt_acq th l r Hwt Hnx) as [_ Hm].
-    unfold cc_can_acq in Hen. destruct l.
-    + specialize (Hm ltac:(discriminate)). destruct (cf_mu c) as [|n|t0] eqn:Hmu; [discriminate| |].
-      * destruct Hwf as [(Hge & Hcnt & _) _]. rewrite <- Hcnt in Hge.
-        apply count_r_pos in Hge as (t' & h & Hn' & Hh). apply nth_held_inv in Hn' as (th' & Hn' & <-).
-        apply (enabled_any c t'). apply (mu_holder_enabled c t' th' Hinv Hfm Hn'). cbn in Hh. congruence.
-      * destruct Hwf as [[(h0 & Hn0 & Hh0) _] _]. apply nth_held_inv in Hn0 as (th0 & Hn0 & <-).
-        apply (enabled_any c t0). apply (mu_holder_enabled c t0 th0 Hinv Hfm Hn0). cbn in Hh0. congruence.
-    + specialize (Hm ltac:(discriminate)). destruct (cf_mu c) as [|n|t0] eqn:Hmu; [discriminate|discriminate|].
-      destruct Hwf as [[(h0 & Hn0 & Hh0) _] _]. apply nth_held_inv in Hn0 as (th0 & Hn0 & <-).
-      apply (enabled_any c t0). apply (mu_holder_enabled c t0 th0 Hinv Hfm Hn0). cbn in Hh0. congruence.
-    + rewrite Hfm in Hen. discriminate.
+  (* 1. somebody holds a file mutex without holding mu write-locked: that thread never waits *)
+  destruct (existsb cc_nests_without_w (cf_threads c)) eqn:HF.
+  { apply existsb_exists in HF as (th & Hin & Hf). apply In_nth_error in Hin as [t Hn].
+    apply (enabled_any c t). unfold cc_nests_without_w in Hf. apply andb_true_iff in Hf as [Hf Hm].
+    apply (f_holder_enabled c t th Hinv Hn).
+    - intros E. rewrite E in Hf. discriminate.
+    - intros E. rewrite E in Hm. discriminate. }
+  assert (Honlyw : forall t th, nth_error (cf_threads c) t = Some th -> th_f th <> [] -> th_mu th = HW).
+  { intros t th Hn Hf. destruct (cc_hmu_eqb (th_mu th) HW) eqn:E; [now apply hmu_eqb_eq|]. exfalso.
+    assert (existsb cc_nests_without_w (cf_threads c) = true); [|congruence].
+    apply existsb_exists. exists th. split; [now apply nth_error_In in Hn|].
+    unfold cc_nests_without_w. rewrite E. destruct (th_f th); [congruence|reflexivity]. }
+  pose proof Hinv as [Hwf Hth].
+  (* 2. mu is write-locked: its holder is the only one that can hold file mutexes, and it is enabled *)
+  destruct (cf_mu c) as [|n|t0] eqn:Hmu.
+  3: { destruct Hwf as [[(h0 & Hn0 & Hh0) _] _]. apply nth_held_inv in Hn0 as (th0 & Hn0 & <-).
+       apply (enabled_any c t0). apply (w_holder_enabled c t0 th0 Hinv Hn0 Hh0).
+       intros t' th' Hn' Hf'. pose proof (Honlyw t' th' Hn' Hf') as Hw.
+       pose proof (wf_holds_w _ _ _ t' _ (proj1 Hinv) (nth_held _ _ _ Hn') Hw) as E. rewrite Hmu in E. now inversion E. }
+  (* 3. otherwise nobody holds a file mutex *)
+  all: assert (Hfm : forall r, cf_fm c r = None)
+    by (intros r; destruct (cf_fm c r) as [t|] eqn:Hr; [|reflexivity]; exfalso;
+        destruct Hwf as (_ & Hf1 & _); destruct (Hf1 r t Hr) as (h & Hn & Hs);
+        apply nth_held_inv in Hn as (th & Hn & <-); cbn in Hs;
+        assert (Hw : th_mu th = HW) by (apply (Honlyw t th Hn); intros E; rewrite E in Hs; contradiction);
+        pose proof (wf_holds_w _ _ _ t _ (proj1 Hinv) (nth_held _ _ _ Hn) Hw) as E; rewrite Hmu in E; discriminate).
+  all: unfold cc_any_unfinished in Hun; apply existsb_exists in Hun as (th & Hin & Hu);
+    apply In_nth_error in Hin as [t Hn];
+    (destruct (cc_enabled c t) eqn:Hen; [now apply (enabled_any c t)|]);
+    pose proof (Hth t th Hn) as Hwt;
+    unfold cc_enabled in Hen; rewrite Hn in Hen; unfold cc_unfinished in Hu;
+    (destruct (cc_next_of th) eqn:Hnx; try discriminate);
+    (destruct i as [l r| | |]; try discriminate);
+    unfold cc_can_acq in Hen; rewrite Hmu in Hen.
+  - (* mu is free: every acquisition is possible *)
+    destruct l; try discriminate. rewrite Hfm in Hen. discriminate.
+  - (* mu is read-locked: a reader is enabled *)
+    destruct l; try discriminate; [|rewrite Hfm in Hen; discriminate].
+    destruct Hwf as [(Hge & Hcnt & _) _]. rewrite <- Hcnt in Hge.
+    apply count_r_pos in Hge as (t' & h & Hn' & Hh). apply nth_held_inv in Hn' as (th' & Hn' & <-).
+    apply (enabled_any c t'). apply (mu_holder_enabled c t' th' Hinv Hfm Hn'). cbn in Hh. congruence.
 Qed.
 
 (* ------------------------------------------------------------------ the main statements *)
@@ -751,16 +873,18 @@ Proof.
   intros H Hn Hnx. apply cc_noleakb_iff in H. destruct (cc_inv_init s progs) as [Hi Hb].
   destruct (cc_inv_run _ sched Hi Hb H) as [[_ Hth] _]. pose proof (Hth t th Hn) as Hwt.
   apply next_instr in Hnx as (Hact & r & Hc). pose proof (wt_active th Hwt Hact) as Hok.
-  rewrite Hc in Hok. cbn [cc_ok] in Hok. destruct r; [|discriminate]. now apply ctx_eqb_eq.
+  rewrite Hc in Hok. cbn [cc_ok] in Hok. destruct r; [|discriminate]. now apply ctx_eqb_eq in Hok as [Hok _].
 Qed.
 
-(* lock order: a thread that waits for mu holds nothing; a thread that waits for a file mutex holds
-   no file mutex (it may hold mu) *)
+(* lock order: a thread that waits for mu holds nothing; a thread that waits for a file mutex does
+   not hold that mutex, and holds another file mutex only together with mu write-locked (the nested
+   holds of Rename: mu, then directory mutexes, then the renamed entry's mutex) *)
 Theorem conc_lock_order s progs sched t th l r :
   cc_noleakb (cc_run_from s progs sched) = true ->
   nth_error (cf_threads (cc_run_from s progs sched)) t = Some th ->
   cc_next_of th = NxInstr (CcAcq l r) ->
-  th_f th = None /\ (l <> LkF -> th_mu th = HNone).
+  (l <> LkF -> th_mu th = HNone /\ th_f th = []) /\
+  (l = LkF -> cc_heldb r (th_f th) = false /\ (th_f th = [] \/ th_mu th = HW)).
 Proof.
   intros H Hn Hnx. apply cc_noleakb_iff in H. destruct (cc_inv_init s progs) as [Hi Hb].
   destruct (cc_inv_run _ sched Hi Hb H) as [[_ Hth] _]. exact (wt_acq th l r (Hth t th Hn) Hnx).
@@ -770,7 +894,7 @@ Qed.
 Theorem conc_panic_balanced a f s s' :
   cc_sem a f s = CcPanic s' -> a <> ARaUnreg -> cc_okd_ctx a = true.
 Proof.
-  intros H Hne. pose proof (cc_sem_ok a f s) as Hs. rewrite H in Hs. destruct Hs as [Hl|Hk]; [|exact Hk].
+  intros H Hne. pose proof (cc_sem_ok a f s (repeat 0 (ctx_len a)) (repeat_length _ _)) as Hs. rewrite H in Hs. destruct Hs as [Hl|Hk]; [|exact Hk].
   destruct a; try discriminate. congruence.
 Qed.
 
@@ -794,6 +918,12 @@ Definition cc_nora (c : cc_cfg) : Prop :=
 Lemma nora_touches l : forallb cc_instr_nora (cc_touches l) = true.
 Proof. induction l; cbn; auto. Qed.
 
+Lemma nora_lockonly code : cc_lockonly code = true -> forallb cc_instr_nora code = true.
+Proof.
+  unfold cc_lockonly. induction code as [|i code IH]; [reflexivity|]. cbn [forallb]. intros H.
+  apply andb_true_iff in H as [H1 H2]. rewrite (IH H2). destruct i; try discriminate; reflexivity.
+Qed.
+
 Lemma cc_sem_nora a f s :
   cc_is_ra a = false ->
   match cc_sem a f s with CcCont _ _ code => forallb cc_instr_nora code = true | CcPanic _ => True end.
@@ -804,7 +934,7 @@ Proof.
            | |- match (match ?x with _ => _ end) with _ => _ end => destruct x
            | |- match (if ?x then _ else _) with _ => _ end => destruct x
            end;
-    cbn [forallb cc_instr_nora cc_is_ra negb andb]; rewrite ?forallb_app, ?nora_touches; auto.
+    cbn [forallb cc_instr_nora cc_is_ra negb andb]; rewrite ?forallb_app, ?nora_touches, ?(nora_lockonly _ (lockonly_rename_code _ _ _)); auto.
 Qed.
 
 Lemma cc_begin_nora lg o slots :
@@ -877,10 +1007,12 @@ Proof.
     + apply Hrel; cbn; auto.
     + eapply Hgen; [reflexivity|exact Hl|]. split; cbn; [now apply forallb_tl|exact Hp].
     + pose proof (wt_active th Hwt Hact) as Hok. rewrite Hcode in Hok, Hc. cbn [cc_ok] in Hok.
-      destruct r; [|discriminate]. apply ctx_eqb_eq in Hok.
+      destruct r; [|discriminate]. apply ctx_eqb_eq in Hok as [Hok Hlen].
+      assert (Hlen' : length (th_f th) = ctx_len a) by (unfold ctx_len; exact Hlen).
       cbn in Hc. rewrite andb_true_r in Hc. apply negb_true_iff in Hc.
       pose proof (cc_sem_nora a (th_fr th) (cf_st c) Hc) as Hsn.
-      pose proof (cc_sem_ok a (th_fr th) (cf_st c)) as Hsem. unfold cc_okd_ctx in Hsem. rewrite Hok in Hsem. cbn [fst snd] in Hsem.
+      pose proof (cc_sem_ok a (th_fr th) (cf_st c) (th_f th) Hlen') as Hsem. unfold cc_okd_ctx in Hsem.
+      rewrite <- Hlen', Hok in Hsem. cbn [fst snd] in Hsem.
       destruct (cc_sem a (th_fr th) (cf_st c)) as [s f code|s].
       * eapply Hgen; [reflexivity|exact Hl|]. split; cbn; [|exact Hp]. rewrite Hcode. cbn. now rewrite app_nil_r.
       * eapply Hgen; [reflexivity| |split; cbn; [reflexivity|exact Hp]]. cbn. rewrite Hl. cbn.
@@ -1049,6 +1181,12 @@ Definition cc_code_for (o : op) (code : list cc_instr) : bool :=
 Lemma code_for_touches o l : cc_code_for o (cc_touches l) = true.
 Proof. unfold cc_code_for. induction l; cbn; auto. Qed.
 
+Lemma code_for_lockonly o code : cc_lockonly code = true -> cc_code_for o code = true.
+Proof.
+  unfold cc_lockonly, cc_code_for. induction code as [|i code IH]; [reflexivity|]. cbn [forallb]. intros H.
+  apply andb_true_iff in H as [H1 H2]. rewrite (IH H2). destruct i; try discriminate; reflexivity.
+Qed.
+
 Lemma handle_set o h : op_handle_of (op_set_handle o h) = match op_handle_of o with Some _ => Some h | None => None end.
 Proof. destruct o; reflexivity. Qed.
 
@@ -1074,7 +1212,8 @@ Proof.
     repeat match goal with |- context [match ?c with _ => _ end] => destruct c end;
     rewrite ?forallb_app; fold (cc_code_for (fr_op f)); rewrite ?Hop;
     cbn [forallb cc_aid_for andb op_handle_of]; try reflexivity; try exact (code_for_touches _ _);
-    try (rewrite andb_true_r; exact (code_for_touches _ _)).
+    try (rewrite andb_true_r; exact (code_for_touches _ _));
+    try (rewrite andb_true_r; exact (code_for_lockonly _ _ (lockonly_rename_code _ _ _))).
 Qed.
 
 Lemma cc_begin_for o slots :
